@@ -97,6 +97,25 @@ def f():
 ''',
     'form-feeds-and-other-separators': 'import os as first_import\n\x0c\ndef after_form_feed(arg_ff): pass\n\x0c\n\x0c\nclass AfterTwo(object): pass\n'
                                        's_ = "a\x0bb\x1cc\x85d\u2028e"\ndef after_string(arg_s): return s_\nimport sys as last_import\nafter_all = 1\n',
+    # ASCII-only lines next to lines that are not (whose columns are converted from bytes to characters): the lines of C11's domain stay as they are
+    'ascii-lines-next-to-wide-ones': 'label = 1; total = 2; result_value = 3\ns_wide = "\u00e9\u00e9\u00e9 \u20ac \U0001f600"\nimport os.path; import json as js\n'
+                                     '# \u00fcn\u00efc\u00f6d\u00e9 comment, long enough to reach past the columns of the line above and of the line below\n'
+                                     'def after_wide(arg_w, other_w): return arg_w\nclass AfterWide(object): attr_w = 1; more_w = 2\nt_wide = "\u65e5\u672c"\nlast_one = 1; very_last = 2\n',
+    # the name of a class also stands in its own decorators
+    'names-in-their-own-decorators': '''def register(*a, **k):
+    return lambda c: c
+class Plain(object): pass
+class Widget(object): pass
+@register(Widget)
+class Widget(Widget):
+    pass
+@register('x', Plain, 'Simple', Simple=1)
+@register(
+    Plain)
+class Simple(Plain): pass
+@register(handler=None)
+def handler(handler=1): return handler
+''',
     'same-line-reads': '''ys = [1, 2]
 z = [y for y in ys]
 w = [(a, b) for a in ys for b in ys]
